@@ -48,7 +48,7 @@ pub fn run(run: &Run) {
     );
     run.assume("a null logger at Trace level is installed so that the argument expressions of dlt-core's log calls are evaluated; panics are observed through catch_unwind, arithmetic overflow through overflow-checks=on");
     run.regressions(&replay);
-    run.random("entry-points", run.cases(120_000, 3_000_000), 0.4, strategy, check);
+    run.random("entry-points", run.cases(300_000, 6_000_000), 0.4, strategy, check);
 }
 
 pub fn replay(section: &str, case: &Json) -> Option<CheckResult> {
